@@ -10,7 +10,7 @@
 (*                                                                         *)
 (*  Init   P = {F, S \ F} (non-empty ones); if both are non-empty, for      *)
 (*         every letter c whose predecessor set is non-empty on both sides  *)
-(*         exactly one of <<F,c>>, <<S\F,c>> is active (either choice is     *)
+(*         at least one of <<F,c>>, <<S\F,c>> is active (either choice is    *)
 (*         sound; the crate takes the one with fewer predecessors); with     *)
 (*         predecessors on one side only that side may or may not be active. *)
 (*  Round  pick an active <<B,c>>, deactivate it; X = pred(B,c);            *)
@@ -18,8 +18,8 @@
 (*         D \cap X and D \ X (B itself last: X refers to the B picked);     *)
 (*         for a split block D and a letter a:                               *)
 (*           <<D,a>> active   -> both halves (with predecessors) active      *)
-(*           <<D,a>> inactive -> at most one half becomes active, and        *)
-(*                               exactly one if both have predecessors       *)
+(*           <<D,a>> inactive -> at least one half becomes active if both    *)
+(*                               have predecessors (activating more is sound)*)
 (*  Stop   when no splitter is active (or all blocks are singletons).       *)
 (*                                                                         *)
 (* Correctness (MC_Hopcroft, all DFAs with <= 3 states over 2 letters and   *)
@@ -48,7 +48,7 @@ InitWOk(d, W) ==
        /\ \A c \in HLetters(d) :
             LET pf == Pred(d, F, c) # {} pn == Pred(d, N, c) # {} IN
             /\ (<<F, c>> \in W => pf) /\ (<<N, c>> \in W => pn)
-            /\ (pf /\ pn) => (<<F, c>> \in W) # (<<N, c>> \in W)       \* exactly one
+            /\ (pf /\ pn) => (<<F, c>> \in W \/ <<N, c>> \in W)       \* at least one (one suffices; both is sound)
 
 \* the refinement of P by the splitter <<B, c>>
 SplitBlocks(d, P, B, c) == LET X == Pred(d, B, c) IN
@@ -71,8 +71,7 @@ RoundWOk(d, P, W, B, c, W2) ==
               p1 == Pred(d, D1, a) # {} p2 == Pred(d, D2, a) # {} IN
           IF <<D, a>> \in W0
           THEN (p1 => <<D1, a>> \in W2) /\ (p2 => <<D2, a>> \in W2)
-          ELSE /\ ~(<<D1, a>> \in W2 /\ <<D2, a>> \in W2)
-               /\ (p1 /\ p2) => (<<D1, a>> \in W2 \/ <<D2, a>> \in W2)
+          ELSE (p1 /\ p2) => (<<D1, a>> \in W2 \/ <<D2, a>> \in W2)       \* at least one half (both is sound too)
 
 (* one round as a relation between logged snapshots *)
 RoundOk(d, P, W, B, c, P2, W2) ==
